@@ -69,17 +69,17 @@ QUICK = [
     ("S6", V21D, 2, "READD"),
 ]
 THOROUGH = [
-    ("S0", V20, 5, "BUILD"),
     ("S0", V21D, 5, "BUILD"),
-    ("S2", V20, 3, "FULL"),
-    ("S3", V21, 3, "EDIT"),
+    ("S2", V20, 2, "FULL"),
+    ("S3r", V21D, 2, "FULL"),
+    ("S3r", V21, 2, "EDIT"),
     ("S3", V21, 3, "READD"),
-    ("S3r", V20D, 3, "READD"),
+    ("S6r", V20D, 3, "READD"),
     ("S1", V20, 4, "HOLES"),
     ("S1r", V21D, 4, "HOLES"),
     ("S2", V20, 3, "COPY"),
     ("S2r", V21, 3, "COPY"),
-    ("S4", V20, 3, "TABLES"),
+    ("S5", V20, 3, "TABLES"),
     ("S4r", V21, 3, "TABLES"),
 ]
 
